@@ -7,4 +7,5 @@ import DafRel.Props.C07
 #print axioms DafRel.Props.C07.multi_engine_processing_invariant
 #print axioms DafRel.Props.C07.only_input_materializations_gain_payloads
 #print axioms DafRel.Props.C07.multi_engine_process_then_execute_yields_direct_rows
+#print axioms DafRel.Props.C07.repeated_processing_yields_direct_rows
 #print axioms DafRel.Props.C07.trivial_transfer_calls_no_hook
